@@ -31,6 +31,48 @@ end
 
 theorem J.eqv_refl [DecidableEq ν] (a : J ν) : J.eqv a a = true := J.beq_refl _
 
+mutual
+theorem J.eq_of_beq [DecidableEq ν] : ∀ (a b : J ν), J.beq a b = true → a = b
+  | .null, b, h => by cases b <;> simp_all [J.beq]
+  | .bool x, b, h => by cases b <;> simp_all [J.beq]
+  | .int x, b, h => by cases b <;> simp_all [J.beq]
+  | .num x, b, h => by cases b <;> simp_all [J.beq]
+  | .str x, b, h => by cases b <;> simp_all [J.beq]
+  | .arr xs, b, h => by
+    cases b with
+    | arr ys => simp only [J.beq] at h; rw [J.eq_of_beqL xs ys h]
+    | _ => simp [J.beq] at h
+  | .obj xs, b, h => by
+    cases b with
+    | obj ys => simp only [J.beq] at h; rw [J.eq_of_beqF xs ys h]
+    | _ => simp [J.beq] at h
+theorem J.eq_of_beqL [DecidableEq ν] : ∀ (xs ys : List (J ν)), J.beqL xs ys = true → xs = ys
+  | [], ys, h => by cases ys <;> simp_all [J.beqL]
+  | x :: xs, ys, h => by
+    cases ys with
+    | nil => simp [J.beqL] at h
+    | cons y ys =>
+      simp only [J.beqL, Bool.and_eq_true] at h
+      rw [J.eq_of_beq x y h.1, J.eq_of_beqL xs ys h.2]
+theorem J.eq_of_beqF [DecidableEq ν] : ∀ (xs ys : List (String × J ν)), J.beqF xs ys = true → xs = ys
+  | [], ys, h => by cases ys <;> simp_all [J.beqF]
+  | (k, x) :: xs, ys, h => by
+    cases ys with
+    | nil => simp [J.beqF] at h
+    | cons y ys =>
+      obtain ⟨l, y⟩ := y
+      simp only [J.beqF, Bool.and_eq_true, beq_iff_eq] at h
+      rw [h.1.1, J.eq_of_beq x y h.1.2, J.eq_of_beqF xs ys h.2]
+end
+
+/-- the equality test used by the predicate is equality -/
+theorem J.beq_iff [DecidableEq ν] (a b : J ν) : J.beq a b = true ↔ a = b :=
+  ⟨J.eq_of_beq a b, fun h => h ▸ J.beq_refl a⟩
+
+/-- `eqv` is equality of canonical forms -/
+theorem J.eqv_iff [DecidableEq ν] (a b : J ν) : J.eqv a b = true ↔ a.canon = b.canon :=
+  J.beq_iff _ _
+
 /-! ### the parser inverts the canonical emission -/
 
 theorem emit_not_rbrack (x : J ν) (rest r' : List (Tok ν)) : emit x ++ rest ≠ .rbrack :: r' := by
